@@ -97,7 +97,16 @@ type verifC06Env struct {
 	trace      []string
 
 	nonTrivial bool
+	// addresses whose account was removed since the last commit / revert to zero (see verifC06KnownRecreate)
+	removedSinceCommit map[int]bool
 }
+
+// verifC06KnownRecreate is the class key of the defect found by this check (see TestVerifC06_Regress): an account
+// that is removed and created again with a storage write (new data trie) before the next commit, followed by a
+// revert to a journal length taken before the removal. While the key is listed as "known" in KNOWN_FINDINGS.json
+// the generator leaves out, by construction, storage writes on an address removed since the last commit (and
+// counts them); otherwise the class is explored like any other.
+const verifC06KnownRecreate = "C06:recreated-account-new-data-trie"
 
 func (e *verifC06Env) logf(format string, a ...interface{}) {
 	e.trace = append(e.trace, fmt.Sprintf(format, a...))
@@ -391,6 +400,10 @@ func (e *verifC06Env) opMutateSave() {
 			}
 		}
 	}
+	if mask&32 != 0 && e.removedSinceCommit[ai] && kit.IsKnown(verifC06KnownRecreate) {
+		e.c.Excluded(verifC06KnownRecreate)
+		mask &^= 32
+	}
 	if mask&32 != 0 {
 		nw := rapid.IntRange(1, 3).Draw(rt, "writes")
 		for w := 0; w < nw; w++ {
@@ -474,6 +487,7 @@ func (e *verifC06Env) opRemove() {
 	}
 	before := e.refCounts()
 	delete(e.model, ai)
+	e.removedSinceCommit[ai] = true
 	e.ops = append(e.ops, verifC06OpFlags{createRemove: true})
 	e.logf("remove a%d", ai)
 	e.c.Class("op-remove")
@@ -558,6 +572,7 @@ func (e *verifC06Env) opCommit() {
 	e.stack = nil
 	e.ops = nil
 	e.committed = e.model.clone()
+	e.removedSinceCommit = map[int]bool{}
 	e.c.Class("op-commit")
 	obs, r2 := e.observe()
 	e.sanity(obs, "commit")
@@ -588,6 +603,7 @@ func (e *verifC06Env) opRevertZero() {
 	e.model = e.committed.clone()
 	e.stack = nil
 	e.ops = nil
+	e.removedSinceCommit = map[int]bool{}
 	e.c.Class("op-revert-zero")
 	if e.mode == "C06" && undone.storage && undone.sharedCode && undone.createRemove {
 		e.nonTrivial = true
@@ -614,7 +630,7 @@ func verifC06Program(rt *rapid.T, c *kit.Case, mode string) {
 		rt.Fatalf("fixture: %v", err)
 	}
 	defer f.Close()
-	e := &verifC06Env{rt: rt, c: c, mode: mode, f: f, model: verifC06Model{}, committed: verifC06Model{}}
+	e := &verifC06Env{rt: rt, c: c, mode: mode, f: f, model: verifC06Model{}, committed: verifC06Model{}, removedSinceCommit: map[int]bool{}}
 
 	nAddr := rapid.IntRange(3, 6).Draw(rt, "nAddr")
 	tails := []byte{0x00, 0x01, 0x10, 0x11, 0xff}
@@ -669,24 +685,39 @@ func verifC06Program(rt *rapid.T, c *kit.Case, mode string) {
 }
 
 func TestVerifC06_RevertRestoresObservation(t *testing.T) {
-	kit.Run(t, "C06", kit.Budget{Quick: 800, Thorough: 8000},
+	kit.Run(t, "C06", kit.Budget{Quick: 2000, Thorough: 40000},
 		"histories of <=40 steps over 3-6 accounts, 2-6 storage keys, 3 shared code blobs on a real AccountsDB (pruning-enabled storage manager, eviction waiting list size 1..100): load-mutate-save (balance, nonce, owner, metadata, SetCode shared/nil/empty, storage writes and deletes), remove, snapshot (JournalLen), nested revert, commit, revert to 0; oracle = everything observable through GetExistingAccount/RetrieveValue/GetCode/RootHash recorded when the journal length was taken equals the observation after the revert; non-trivial = one revert undoes a storage write, a change of a code shared with another account and an account creation or removal together",
 		func(rt *rapid.T, c *kit.Case) { verifC06Program(rt, c, "C06") })
 }
 
 func TestVerifC07_CodeEntriesMatchReferrers(t *testing.T) {
-	kit.Run(t, "C07", kit.Budget{Quick: 800, Thorough: 8000},
+	kit.Run(t, "C07", kit.Budget{Quick: 2000, Thorough: 40000},
 		"same histories as C06; after every step (save, remove, revert, commit, revert to 0) for each of the 3 code blobs: main-trie leaf under hash(code) exists iff >=1 model account carries it, NumReferences equals their number, bytes equal; after each commit every main-trie leaf is a live account or a referenced code entry; non-trivial = a removal or a revert takes a reference count 2->1 or 1->0",
 		func(rt *rapid.T, c *kit.Case) { verifC06Program(rt, c, "C07") })
 }
 
-// Regression (minimal counterexample found by TestVerifC06_RevertRestoresObservation on the
-// unrepaired tree): an account with committed storage is removed and created again with a storage
-// write inside one journal window; reverting to the journal length taken before the removal
-// restores the account record (and the state root) but reads of its storage go to the data trie of
-// the reverted incarnation that is still cached in AccountsDB.dataTries.
+// Regression (minimal counterexamples found by TestVerifC06_RevertRestoresObservation on the
+// unrepaired tree): an account with storage is removed and created again with a storage write inside
+// one journal window; reverting to a journal length taken before the removal restores the account
+// record (and the state root) but AccountsDB.dataTries still caches the data trie of the reverted
+// incarnation, so reads of the restored account's storage go to the wrong trie.
+//
+//	scenario 1: the storage of the removed account is committed and its trie is not cached;
+//	scenario 2: the storage of the removed account exists only in the cached (uncommitted) trie, which
+//	            the second incarnation evicts from the cache (found after a partial repair that
+//	            handled scenario 1 only).
 func TestVerifC06_Regress(t *testing.T) {
 	kit.Silence()
+	for scenario := 1; scenario <= 2; scenario++ {
+		verifC06RegressScenario(t, scenario)
+	}
+}
+
+func verifC06RegressScenario(t *testing.T, scenario int) {
+	if kit.IsKnown(verifC06KnownRecreate) {
+		t.Logf("KNOWN key=%s: scenario %d not evaluated", verifC06KnownRecreate, scenario)
+		return
+	}
 	f, err := verifSANewFixture(verifSAConfig{EwlCacheSize: 100, MaxTrieLevelInMem: 5, PruningBufferLen: 1000})
 	if err != nil {
 		t.Fatalf("fixture: %v", err)
@@ -694,44 +725,53 @@ func TestVerifC06_Regress(t *testing.T) {
 	defer f.Close()
 	must := func(err error, what string) {
 		if err != nil {
-			t.Fatalf("fixture: %s: %v", what, err)
+			t.Fatalf("fixture: scenario %d: %s: %v", scenario, what, err)
 		}
+	}
+	write := func(addr, key, val []byte) {
+		acc, err := f.Adb.LoadAccount(addr)
+		must(err, "LoadAccount")
+		if key != nil {
+			must(acc.(state.UserAccountHandler).DataTrieTracker().SaveKeyValue(verifSAClone(key), verifSAClone(val)), "SaveKeyValue")
+		}
+		must(f.Adb.SaveAccount(acc), "SaveAccount")
 	}
 	addrA := bytes.Repeat([]byte{0xa1}, 32)
 	addrB := bytes.Repeat([]byte{0xb2}, 32)
-	key, val := []byte("k"), []byte("committed value")
+	key, val := []byte("k"), []byte("value before")
+	var story string
 
-	acc, err := f.Adb.LoadAccount(addrA)
-	must(err, "LoadAccount")
-	must(acc.(state.UserAccountHandler).DataTrieTracker().SaveKeyValue(verifSAClone(key), verifSAClone(val)), "SaveKeyValue")
-	must(f.Adb.SaveAccount(acc), "SaveAccount")
-	_, err = f.Adb.Commit()
-	must(err, "Commit")
-
-	accB, err := f.Adb.LoadAccount(addrB)
-	must(err, "LoadAccount")
-	must(f.Adb.SaveAccount(accB), "SaveAccount") // journal length becomes > 0
+	write(addrA, key, val)
+	if scenario == 1 {
+		_, err = f.Adb.Commit()
+		must(err, "Commit")
+		story = "a{k=v} committed; save b; n=JournalLen(); RemoveAccount(a); load a, SaveKeyValue(other,x), SaveAccount; RevertToSnapshot(n)"
+	} else {
+		story = "a{k=v} saved, not committed; save b; n=JournalLen(); a: delete k, SaveAccount; RemoveAccount(a); load a, SaveKeyValue(other,x), SaveAccount; RevertToSnapshot(n)"
+	}
+	write(addrB, nil, nil) // journal length becomes > 0
 	jl := f.Adb.JournalLen()
 	rootBefore, _ := f.Adb.RootHash()
 
+	if scenario == 2 {
+		write(addrA, key, nil) // the data trie becomes empty, which makes the removal acceptable
+	}
 	must(f.Adb.RemoveAccount(addrA), "RemoveAccount")
-	acc, err = f.Adb.LoadAccount(addrA)
-	must(err, "LoadAccount")
-	must(acc.(state.UserAccountHandler).DataTrieTracker().SaveKeyValue([]byte("other"), []byte("x")), "SaveKeyValue")
-	must(f.Adb.SaveAccount(acc), "SaveAccount")
+	write(addrA, []byte("other"), []byte("x"))
 
 	must(f.Adb.RevertToSnapshot(jl), "RevertToSnapshot")
 	rootAfter, _ := f.Adb.RootHash()
 	if !bytes.Equal(rootBefore, rootAfter) {
-		kit.FailPlain(t, "C06", "C06:snapshot:root-hash-differs", "state root %x after the revert, %x before", rootAfter, rootBefore)
+		kit.FailPlain(t, "C06", "C06:snapshot:root-hash-differs", "%s: state root %x after the revert, %x before", story, rootAfter, rootBefore)
 	}
 	got, err := f.Adb.GetExistingAccount(addrA)
-	must(err, "GetExistingAccount")
+	if err != nil {
+		kit.FailPlain(t, "C06", "C06:snapshot:state-unreadable", "%s: GetExistingAccount(a) fails: %v", story, err)
+		return
+	}
 	v, err := got.(state.UserAccountHandler).DataTrieTracker().RetrieveValue(key)
-	must(err, "RetrieveValue")
-	if !bytes.Equal(v, val) {
-		kit.FailPlain(t, "C06", "C06:snapshot:account-state-differs",
-			"commit a{k=%q}; save b; n=JournalLen(); RemoveAccount(a); load a, SaveKeyValue(other,x), SaveAccount; RevertToSnapshot(n): a.RetrieveValue(k) = %q, want %q", val, v, val)
+	if err != nil || !bytes.Equal(v, val) {
+		kit.FailPlain(t, "C06", "C06:snapshot:account-state-differs", "%s: a.RetrieveValue(k) = %q (err %v), want %q", story, v, err, val)
 	}
 }
 
